@@ -96,5 +96,5 @@ def path_class(path: str) -> str:
 def default_exact(path: str) -> bool:
     """Truth states and bookkeeping must be bit-identical; estimates/filters/rewards may differ by rounding when the
     stacking order of simultaneous observations changes (the property says 'up to rounding')."""
-    tolerant = ("/estimates", "estimate_ephemeri", "filter_step", "reward", "metric", "tasks", "boresight")
+    tolerant = ("/estimates", "estimate_ephemeri", "filterstep", "filter_step", "reward", "metric", "tasks", "boresight")
     return not any(t in path for t in tolerant)
